@@ -3,7 +3,7 @@ from . import COMMON_TB, NOTE
 PROP = {
     "level": "proof",
     "modules": [],
-    "streams": [{"name": "immut"}],
+    "streams": [{"name": "immut"}, {"name": "alias"}],
     "rule": "immut: sequences of 2..40 operations (Render, RenderString, FRender on templates parsed once, ParseAndRender) "
             "on one engine over working sets drawn from pools of 40 generated templates x 12 environments of one schema "
             "(array-filter heavy: sort, reverse, uniq, concat, compact, map, first, last, join, sort_natural applied to "
